@@ -16,7 +16,7 @@ EXTENDS Definition, Lifecycle
 (* for (open findings).  With the name in the set the operator does what the code does; without  *)
 (* it, what the intended design would do.  Conformance and the as-code model checks use AsCode.   *)
 CONSTANT Deviations
-AsCode == {"S2_join_restaged_by_late_arrival"}
+AsCode == {"S2_join_restaged_by_late_arrival", "S1_inherited_delta_reappended"}
 
 (* ------------------------------------------------------------------------------------------ *)
 (* small helpers                                                                              *)
@@ -27,6 +27,13 @@ MinOf(S)       == CHOOSE x \in S : \A y \in S : x <= y
 RemoveFirstZero(s) ==                                             \* list.remove(0)
   LET z == {j \in 1..Len(s) : s[j] = 0} IN IF z = {} THEN s ELSE RemoveAt(s, MinOf(z))
 Asc(S)         == SortSeq(SetToSeq(S), LAMBDA a, b : a < b)
+(* Context index lists are merged by concatenation.  As the code does it, an index that a later   *)
+(* arrival merely inherited is appended again after newer ones and wins the merge (finding S1);   *)
+(* the intended design keeps the first occurrence only.                                          *)
+RECURSIVE KeepFirst(_, _)
+KeepFirst(s, acc) == IF s = << >> THEN acc
+                     ELSE KeepFirst(Tail(s), IF \E j \in 1..Len(acc) : acc[j] = Head(s) THEN acc ELSE Append(acc, Head(s)))
+IdxCat(a, b) == IF "S1_inherited_delta_reappended" \in Deviations THEN a \o b ELSE KeepFirst(a \o b, << >>)
 
 LatestIdx(S)   == {S.ptr[k] + 1 : k \in DOMAIN S.ptr}            \* last_occurrence=True (l.94, 104)
 HasStatusIn(S, sts) == \E i \in LatestIdx(S) : S.seq[i].st \in sts
@@ -340,24 +347,33 @@ StepEdge(d, acc, li, t, r, e, res) ==
   IF c = "F" THEN [acc EXCEPT !.S = S1]
   ELSE
   LET pr == PubRoll(e.pub, 1, res, cctx) IN
-  IF "S2_join_restaged_by_late_arrival" \notin Deviations /\ IsJoin(d, e.dst) /\ ~InCycle(d, e.dst)
-     /\ RecIdxOf(S1, e.dst, r) # 0 /\ StagedIdx(S1, e.dst, r) = 0
-  THEN \* intended design (S2 repaired): the decision is recorded, the join is not staged a second time
-       [acc EXCEPT !.S = S1]
-  ELSE
   IF ~pr.ok
   THEN [acc EXCEPT !.S = Req(d, LogErr(S1, "expr", t, r, tid, <<2>>), "failed").S]
   ELSE
   LET hasNew == DOMAIN pr.new # {}
-      S2  == IF hasNew THEN [S1 EXCEPT !.ctxs = Append(@, pr.new)] ELSE S1
-      out == IF hasNew THEN Append(rc.ctxin, Len(S2.ctxs) - 1) ELSE rc.ctxin
+      \* As the code does it every (transition, target) pair appends its own copy of the published delta;
+      \* in the intended design (S1 repaired) the targets of one transition share one entry, so that a
+      \* join can tell an inherited delta from a new one by its index.
+      shared == "S1_inherited_delta_reappended" \notin Deviations /\ e.ti \in DOMAIN acc.pidx
+      S2  == IF hasNew /\ ~shared THEN [S1 EXCEPT !.ctxs = Append(@, pr.new)] ELSE S1
+      nidx == IF shared THEN acc.pidx[e.ti] ELSE Len(S2.ctxs) - 1
+      out == IF hasNew THEN Append(rc.ctxin, nidx) ELSE rc.ctxin
+      pidx1 == IF hasNew THEN (e.ti :> nidx) @@ acc.pidx ELSE acc.pidx
+  IN
+  IF "S2_join_restaged_by_late_arrival" \notin Deviations /\ IsJoin(d, e.dst) /\ ~InCycle(d, e.dst)
+     /\ RecIdxOf(S1, e.dst, r) # 0 /\ StagedIdx(S1, e.dst, r) = 0
+  THEN \* intended design (S2 repaired): the decision and what the transition publishes are recorded, the join
+       \* is not staged a second time
+       [acc EXCEPT !.S = S2, !.pidx = pidx1]
+  ELSE
+  LET dummy == 0
       er  == EvalRoute(d, S2, t, e, r)
       S3  == er.S
       si  == StagedIdx(S3, e.dst, er.route)
       backref == Tid(t, e.key)
       S4  == IF si # 0
              THEN \* merge into the entry already staged (l.1028-1040)
-                  [S3 EXCEPT !.staged[si].ctxin = @ \o RemoveFirstZero(out),
+                  [S3 EXCEPT !.staged[si].ctxin = IdxCat(@, RemoveFirstZero(out)),
                              !.staged[si].prev = Upd(@, backref, li - 1),
                              \* fix da1bdf7: items are kept while some item is active
                              !.staged[si].hasitems = IF ItemsActive(S3.staged[si]) THEN @ ELSE FALSE,
@@ -370,9 +386,9 @@ StepEdge(d, acc, li, t, r, e, res) ==
       S5  == [S4 EXCEPT !.staged[sj].ready = rdy]
   IN IF e.dst \in Cmds
      THEN [S |-> S5, queue |-> Append(acc.queue, <<e.dst, er.route>>),
-           manualFail |-> acc.manualFail \/ e.dst = "fail", readied |-> acc.readied]
+           manualFail |-> acc.manualFail \/ e.dst = "fail", readied |-> acc.readied, pidx |-> pidx1]
      ELSE [S |-> S5, queue |-> acc.queue, manualFail |-> acc.manualFail,
-           readied |-> IF rdy THEN acc.readied \cup {<<e.dst, er.route>>} ELSE acc.readied]
+           readied |-> IF rdy THEN acc.readied \cup {<<e.dst, er.route>>} ELSE acc.readied, pidx |-> pidx1]
 
 RECURSIVE Edges_(_, _, _, _, _, _, _)
 Edges_(d, acc, li, t, r, k, res) ==
@@ -452,7 +468,7 @@ UTS(d, S, t, r, ev) ==
   IN
   LET Sh == IF new \in Completed /\ new # old
             THEN LET a0 == [S |-> IF Len(Edges(d, t)) = 0 THEN [Sg2 EXCEPT !.seq[li].term = TRUE] ELSE Sg2,
-                            queue |-> << >>, manualFail |-> FALSE, readied |-> {}]
+                            queue |-> << >>, manualFail |-> FALSE, readied |-> {}, pidx |-> << >>]
                      a1 == Edges_(d, a0, li, t, r, 1, res)
                      \* fix: terminal also when transitions exist but none is satisfied
                      nx == a1.S.seq[li].next
@@ -473,10 +489,10 @@ RunQueue(d, S, q) ==
 TermCtx(S) ==                                                      \* get_workflow_terminal_context
   LET terms == Asc({i \in 1..Len(S.seq) : S.seq[i].term})
       idxs  == IF terms = << >> THEN << >>
-               ELSE S.seq[terms[1]].ctxin \o
+               ELSE IdxCat(S.seq[terms[1]].ctxin,
                     FlattenSeq([k \in 1..(Len(terms) - 1) |->
                        \* in_ctx_idxs.remove(0): the first occurrence of 0 is dropped
-                       RemoveFirstZero(S.seq[terms[k + 1]].ctxin)])
+                       RemoveFirstZero(S.seq[terms[k + 1]].ctxin)]))
   IN IF idxs = << >> THEN << >> ELSE CtxMerge(S, idxs)
 
 RECURSIVE RollOut(_, _, _, _)
